@@ -138,16 +138,20 @@ type shareCase struct {
 	Name string
 	Src  string
 	Want string
+	Sig  string // signature prefix; default "noshare"
 }
 
 var shareCases = []shareCase{
-	{"ref-var-store", "$a = [1, 2, 3]; $r = &$a; $r[0] = 9; $r[] = 4; echo show($a), ' ', show($r);", "[0=>9,1=>2,2=>3,3=>4,] [0=>9,1=>2,2=>3,3=>4,]"},
-	{"ref-var-orig", "$a = [1, 2, 3]; $r = &$a; $a[1] = 7; $a->push(5); echo show($a), ' ', show($r);", "[0=>1,1=>7,2=>3,3=>5,] [0=>1,1=>7,2=>3,3=>5,]"},
-	{"ref-slot-write", "$a = [1, 2, 3]; $r = &$a[0]; $r = 9; echo show($a), ' ', show($r);", "[0=>9,1=>2,2=>3,] 9"},
-	{"ref-slot-store", "$a = [1, 2, 3]; $r = &$a[0]; $a[0] = 5; echo show($a), ' ', show($r);", "[0=>5,1=>2,2=>3,] 5"},
-	{"ref-param", "function addr(&$x) { $x[] = 7; $x[0] = 8; } $a = [1]; addr($a); echo show($a);", "[0=>8,1=>7,]"},
-	{"handle", "$o = new O; $o->p0 = [1]; $o2 = $o; $o2->p0[] = 2; $o2->p0[0] = 5; echo show($o->p0), ' ', show($o2->p0);", "[0=>5,1=>2,] [0=>5,1=>2,]"},
-	{"handle-in-array", "$o = new O; $o->p0 = [1]; $c = [$o]; $d = $c; $d[0]->p0[] = 2; echo show($o->p0);", "[0=>1,1=>2,]"},
+	{"ref-var-store", "$a = [1, 2, 3]; $r = &$a; $r[0] = 9; $r[] = 4; echo show($a), ' ', show($r);", "[0=>9,1=>2,2=>3,3=>4,] [0=>9,1=>2,2=>3,3=>4,]", ""},
+	{"ref-var-orig", "$a = [1, 2, 3]; $r = &$a; $a[1] = 7; $a->push(5); echo show($a), ' ', show($r);", "[0=>1,1=>7,2=>3,3=>5,] [0=>1,1=>7,2=>3,3=>5,]", ""},
+	{"ref-slot-write", "$a = [1, 2, 3]; $r = &$a[0]; $r = 9; echo show($a), ' ', show($r);", "[0=>9,1=>2,2=>3,] 9", ""},
+	{"ref-slot-store", "$a = [1, 2, 3]; $r = &$a[0]; $a[0] = 5; echo show($a), ' ', show($r);", "[0=>5,1=>2,2=>3,] 5", ""},
+	{"ref-param", "function addr(&$x) { $x[] = 7; $x[0] = 8; } $a = [1]; addr($a); echo show($a);", "[0=>8,1=>7,]", ""},
+	{"handle", "$o = new O; $o->p0 = [1]; $o2 = $o; $o2->p0[] = 2; $o2->p0[0] = 5; echo show($o->p0), ' ', show($o2->p0);", "[0=>5,1=>2,] [0=>5,1=>2,]", ""},
+	{"handle-in-array", "$o = new O; $o->p0 = [1]; $c = [$o]; $d = $c; $d[0]->p0[] = 2; echo show($o->p0);", "[0=>1,1=>2,]", ""},
+	// a nested write changes what it names and nothing else of the same array (fixed: C06-2)
+	{"nested-store-list", "$a = [[1, 2], [3]]; $a[0][0] = 9; $a[1][] = 4; echo show($a);", "[0=>[0=>9,1=>2,],1=>[0=>3,1=>4,],]", "expect"},
+	{"concat-assign-elem", "$a = [3, 1]; $a[0] .= 'z'; echo show($a);", "[0=>3z,1=>1,]", "expect"},
 }
 
 func (r *runner) runShare(sc shareCase) {
@@ -156,7 +160,11 @@ func (r *runner) runShare(sc shareCase) {
 	c.Eval("share|"+sc.Name, true)
 	c.Hit("share")
 	if o.Kind != "ok" || strings.TrimSpace(o.Out) != sc.Want {
-		c.Violation("noshare:"+sc.Name, fmt.Sprintf("explicitly shared names no longer share: got %q want %q", o.String(), sc.Want),
+		pre, what := "noshare", "explicitly shared names no longer share"
+		if sc.Sig != "" {
+			pre, what = sc.Sig, "a write did not do exactly what it names"
+		}
+		c.Violation(pre+":"+sc.Name, fmt.Sprintf("%s: got %q want %q", what, o.String(), sc.Want),
 			&Case{Kind: "share", Src: sc.Src, Mut: sc.Name})
 	}
 }
